@@ -362,6 +362,11 @@ fn main() {
             }
         }
     }
+    // development aids (evidence then says exhaustive: false): restrict to one level / the first N items
+    let only_level = std::env::var("VERIF_ONLY_LEVEL").ok().and_then(|s| s.parse::<usize>().ok());
+    if let Some(l) = only_level {
+        work.retain(|w| w.3 == l);
+    }
     if let Some(limit) = std::env::var("VERIF_LIMIT").ok().and_then(|s| s.parse::<usize>().ok()) {
         work.truncate(limit);
     }
@@ -379,7 +384,7 @@ fn main() {
             continue;
         }
         // a deeper level is only started while less than 40% of the time budget is used
-        if level > 1 && run.elapsed() > 0.4 * budget_s {
+        if level > 1 && only_level.is_none() && run.elapsed() > 0.4 * budget_s {
             levels_skipped.push(json!({"level": level, "evaluations": items.len(), "reason": format!("{:.0}s of the {budget_s:.0}s budget used after the previous level", run.elapsed())}));
             continue;
         }
@@ -480,7 +485,7 @@ fn main() {
         "distinct_nontrivial": nontrivial.len(),
         "rule": "distinct (world, configuration@edition) pairs with at least one import or export for which the generator produced bindings that were handed to rustc (whatever the verdict); `compared_worlds` counts those whose bindings + stubs compiled and whose world was compared (component world after ComponentEncoder, or extracted link names)",
         "compared_worlds": compared.len(),
-        "exhaustive": std::env::var_os("VERIF_LIMIT").is_none() && levels_skipped.is_empty(),
+        "exhaustive": std::env::var_os("VERIF_LIMIT").is_none() && only_level.is_none() && levels_skipped.is_empty(),
         "levels": {"1": "quick world set x full configuration factorial (+ edition 2024 on the quick configurations)", "2": "+ rest of the corpus", "3": "+ remaining enumerated worlds (full factorial), per-position and extended-alphabet name worlds (quick configurations)"},
         "levels_completed": levels_completed,
         "levels_skipped_for_time": levels_skipped,
